@@ -716,9 +716,11 @@ class ComputeGraph(MultiDiGraph):
         # past-state extraction for DDE
         if is_dde:
             code_gen.add_linebreak()
+            # (functions for fixed-step solvers receive the step counter as `t`, like the vector field does)
+            t_str = f"t*{dt:.10e}" if dt is not None and not dt_adapt else "t"
             for d_str, group in delay_groups.items():
                 d_safe = d_str.replace('.', 'p').replace('-', 'm')
-                code_gen.add_code_line(f"_yhist_{d_safe} = hist(t - {d_str})")
+                code_gen.add_code_line(f"_yhist_{d_safe} = hist({t_str} - {d_str})")
 
         # allocate instantaneous Jacobian (backend-aware: emits numpy `zeros`
         # for the default path, jnp.zeros for JaxBackend, etc.)
